@@ -819,7 +819,16 @@ _MERGE_CACHE = {}
 
 
 class SDict(dict):
-    """dict whose look-ups accept symbolic string keys (merging the hits)"""
+    """dict whose look-ups accept symbolic string keys (merging the hits).  A wrapped collections.defaultdict keeps
+    its default factory (missing keys are inserted exactly as the original would)."""
+    _factory = None
+
+    def __missing__(self, key):
+        if self._factory is None:
+            raise KeyError(key)
+        v = self._factory()
+        dict.__setitem__(self, key, v)
+        return v
 
     def _hits(self, k):
         if isinstance(k, SymTok):
@@ -854,6 +863,8 @@ class SDict(dict):
                 k = int(k)
             return dict.__getitem__(self, k)
         if not self._has(k):
+            if self._factory is not None:
+                return self.__missing__(k.concrete())
             raise KeyError(k)
         hits = self._hits(k)
         if len(hits) == 1:
@@ -1077,7 +1088,10 @@ def load_instrumented(repo="/repo", pkg="selfies"):
         if mod is not None and hasattr(mod, name):
             cur = getattr(mod, name)
             if not isinstance(cur, (SDict, SSet, STuple, SPattern)):
-                setattr(mod, name, ctor(cur))
+                new = ctor(cur)
+                if isinstance(new, SDict) and getattr(cur, "default_factory", None) is not None:
+                    new._factory = cur.default_factory
+                setattr(mod, name, new)
             WRAPPED.append("%s.%s" % (mod.__name__, name))
 
     gr, su, mg, bc, co = M("grammar_rules"), M("utils.smiles_utils"), M("mol_graph"), M("bond_constraints"), M("constants")
@@ -1144,6 +1158,27 @@ def make_tokens(prefix, n, alphabet):
 _TOKVARS = {}
 
 
+class TokFrag(list):
+    """one '.'-fragment of a TokStr: a list of symbols (so that the real _tokenize_selfies iterates it through its
+    `list` branch) that also answers the substring test `"text" in fragment` the way the fragment's string would"""
+
+    def __contains__(self, sub):
+        if isinstance(sub, str) and "][" not in sub:
+            for t in list.__iter__(self):
+                if isinstance(t, str):
+                    if sub in t:
+                        return True
+                elif sub in t:   # SymTok.__contains__ (decided on the path)
+                    return True
+            return False
+        if isinstance(sub, str):
+            return sub in "".join(str(t) for t in list.__iter__(self))
+        return list.__contains__(self, sub)
+
+    def __str__(self):
+        return "".join(str(t) for t in list.__iter__(self))
+
+
 class TokStr:
     """A SELFIES string given as a list of SymTok / str symbols (model M-TOK).
     Passed to the real decoder: `.split(".")` forks on which tokens are dots and
@@ -1152,6 +1187,8 @@ class TokStr:
 
     def __init__(self, toks):
         self.toks = list(toks)
+
+    FRAG = None  # fragment class (overridable)
 
     def split(self, sep):
         assert sep == "."
@@ -1164,7 +1201,12 @@ class TokStr:
             else:
                 cur.append(t)
         parts.append(cur)
-        return parts
+        F = self.FRAG or TokFrag
+        return [F(p) for p in parts]
+
+    def as_plain_str(self):
+        """the string itself, every symbol pinned (forks over what the path leaves open)"""
+        return "".join(t if isinstance(t, str) else str(t) for t in self.toks)
 
     def __repr__(self):
         return "TokStr(%r)" % (self.toks,)
